@@ -83,6 +83,7 @@ type Eval struct {
 	depth int
 	inOld bool
 	loopOld *State // state at entry of the loop whose invariant is being evaluated (lold)
+	overlay map[ssa.Value]Val // loop-cut overlay to install while this evaluator runs
 }
 
 func (ex *Exec) newEval(st, old *State) *Eval {
@@ -93,7 +94,7 @@ func (ex *Exec) newEval(st, old *State) *Eval {
 func (ex *Exec) evalHere() *Eval {
 	ev := ex.newEval(ex.curState, ex.entry)
 	ex.bindParams(ev)
-	ev.point = &progPoint{block: ex.curBlock, idx: len(ex.curBlock.Instrs)}
+	ev.point = &progPoint{block: ex.curBlock, idx: ex.curIdx}
 	return ev
 }
 
@@ -121,6 +122,11 @@ func (ev *Eval) state() *State {
 }
 
 func (ev *Eval) evalBool(e Expr) string {
+	if ev.overlay != nil {
+		saved := ev.ex.loopPhiOverlay
+		ev.ex.loopPhiOverlay = ev.overlay
+		defer func() { ev.ex.loopPhiOverlay = saved }()
+	}
 	tv := ev.eval(e)
 	return tv.T
 }
@@ -275,6 +281,25 @@ func (ev *Eval) eval(e Expr) TV {
 		a, b := ev.rval(ev.eval(e.A)), ev.rval(ev.eval(e.B))
 		a, b = ev.unifyZero(a, b)
 		return TV{T: sIte(c.T, a.T, b.T), Ty: a.Ty}
+	case ELambda:
+		// array comprehension: a fresh constant with a defining axiom
+		vt := ev.resolveType(e.Var.Type)
+		sub := *ev
+		sub.vars = map[string]TV{}
+		for k, x := range ev.vars {
+			sub.vars[k] = x
+		}
+		ev.vc().ctr++
+		n := fmt.Sprintf("lam_%s_%d", sanitize(e.Var.Name), ev.vc().ctr)
+		sub.vars[e.Var.Name] = TV{T: n, Ty: vt}
+		body := sub.rval(sub.eval(e.Body))
+		rt := VT{Kind: "map", Args: []VT{vt, body.Ty}}
+		if vt.Kind == "go" && vt.Go != nil && ev.ex.sortOfT(vt.Go) == "Int" {
+			rt = VT{Kind: "seq", Args: []VT{body.Ty}}
+		}
+		a := ev.vc().fresh("lambda", ev.vc().vtSort(rt))
+		ev.vc().assume(fmt.Sprintf("(forall ((%s %s)) (! (= (select %s %s) %s) :pattern ((select %s %s))))", n, ev.vc().vtSort(vt), a, n, body.T, a, n))
+		return TV{T: a, Ty: rt}
 	case ELet:
 		v := ev.rval(ev.eval(e.Val))
 		sub := *ev
@@ -786,6 +811,16 @@ func (ev *Eval) call(e ECall) TV {
 		}
 		ev.errorf("pre(): no loop-carried variable of that name")
 		return TV{T: "0", Ty: vtInt}
+	case "raw":
+		// raw(s, e): the element s[e] addressed by plain arithmetic (off+e) instead of the ix symbol, so that a
+		// quantifier triggered on s[k] does not re-trigger on the terms its own body creates (e.g. s[(k-1)/2])
+		x, i := arg(0), arg(1)
+		if sl, ok := isSliceVT(x.Ty); ok && !isStructType(sl.Elem()) {
+			k, srt := ev.ex.elemKey(sl.Elem())
+			return TV{T: sSel(sSel(ev.ex.get(ev.state(), k, "(Array Int (Array Int "+srt+"))"), "(sarr "+x.T+")"), "(+ (soff "+x.T+") "+i.T+")"), Ty: goVT(sl.Elem())}
+		}
+		ev.errorf("raw() needs a slice of scalars")
+		return TV{T: "0", Ty: vtInt}
 	case "sarr":
 		return TV{T: "(sarr " + arg(0).T + ")", Ty: vtInt}
 	case "soff":
@@ -1254,37 +1289,26 @@ func (ex *Exec) resolveLocal(name string, pt *progPoint, st *State) (TV, bool) {
 			return TV{T: v.T, Ty: vtInt}, true
 		}
 	}
-	// order candidates by the position where their value is defined (a DebugRef for a later use of the
-	// variable denotes the same value as the definition it refers to)
-	defPos := func(c *cand) (*ssa.BasicBlock, int) {
-		if ins, ok := c.v.(ssa.Instruction); ok && ins.Block() != nil {
-			for i, x := range ins.Block().Instrs {
-				if x == ins {
-					return ins.Block(), i
-				}
-			}
-		}
-		return ex.fn.Blocks[0], -1
-	}
+	// A candidate binds the name at its own position (the DebugRef marking a definition, assignment or use; the
+	// phi; the alloc). It counts if that position has been executed when control is at pt and the value it refers
+	// to is computed; the latest such position wins.
 	var best *cand
-	var bestB *ssa.BasicBlock
-	bestI := 0
 	for i := range cands {
 		c := &cands[i]
-		if !ex.availableAt(c.v, pt) {
+		executed := (c.block == pt.block && c.idx < pt.idx) || (c.block != pt.block && c.block.Dominates(pt.block))
+		if !executed || !ex.availableAt(c.v, pt) {
 			continue
 		}
-		cb, ci := defPos(c)
 		if best == nil {
-			best, bestB, bestI = c, cb, ci
+			best = c
 			continue
 		}
-		if bestB == cb {
-			if ci > bestI {
-				best, bestB, bestI = c, cb, ci
+		if best.block == c.block {
+			if c.idx > best.idx {
+				best = c
 			}
-		} else if bestB.Dominates(cb) {
-			best, bestB, bestI = c, cb, ci
+		} else if best.block.Dominates(c.block) {
+			best = c
 		}
 	}
 	if best == nil {
